@@ -8,12 +8,17 @@
    {"op":"tariffs_us","file":f,"start_us":µs,"n":n,"step_us":µs} → get_tariffs, any start / timedelta step
    {"op":"iface","file":f,"sim_start":t,"period":p,"iteration":i,"start":k|null,"n":n}  → Interface.get_prices / get_demand_charge
    {"op":"cost","file":f,"sim_start":t,"period":p,"agg":[bits…]}   → energy_cost, demand_charge
+   {"op":"tariffs_p","file":f,"start_us":µs,"n":n,"p_num":a,"p_den":b}      → get_tariffs for the rational period a/b min, and timedelta(minutes=a/b) in µs
+   {"op":"iface_p","file":f,"sim_start_us":µs,"p_num":a,"p_den":b,"iteration":i,"start":k|null,"n":n} → Interface.get_prices / get_demand_charge, any period
+   {"op":"cost_p","file":f,"sim_start_us":µs,"p_num":a,"p_den":b,"period_f":bits,"agg":[bits…],"arg":file|null,"sig":file|"nodict"|null}
+        → energy_cost(sim, tariff=arg) / demand_charge(sim, tariff=arg) with sim.signals = {"tariff": sig} | {} (null) | None ("nodict")
    {"op":"load","file":f}                                      → the loaded schedule list
    {"op":"decimal","from":a,"to":b}                            → Decimal hour value + flipOk per second of day
    {"op":"minutes","file":f,"day0":d,"days":k}                 → run-length encoded per-minute rates per day
 -/
 import AcnModel.Wire
 import AcnModel.Gen.Tariffs
+import AcnModel.TariffPeriod
 import Std.Data.HashMap
 open Lean Acn Acn.Wire Acn.Tariff
 
@@ -42,6 +47,26 @@ def findFile (name : String) : Except String (List (Raw Float)) :=
 def loadFile (name : String) : Except String (Except Err (List (Schedule Float))) := do
   let raws ← findFile name
   pure (load raws)
+
+def jResC (r : Except CostErr Float) : Json :=
+  match r with
+  | .ok x => jF x
+  | .error e => jS (costErrName e)
+
+/-- an optional tariff named by its file: `null` ↦ none; a file that does not load ↦ protocol error -/
+def optTariff (j : Json) (k : String) : Except String (Option (List (Schedule Float))) := do
+  match ← getOpt j k (fun v => v.getStr?) with
+  | none => pure none
+  | some name =>
+    match ← loadFile name with
+    | .ok l => pure (some l)
+    | .error e => throw s!"tariff {name} does not load: {errName e}"
+
+def getPeriod (j : Json) : Except String Rat := do
+  let a ← getInt j "p_num"
+  let b ← getNat j "p_den"
+  if b == 0 then throw "p_den = 0"
+  pure (mkRat a b)
 
 def jRat (q : Rat) : Json := jS s!"{q.num}/{q.den}"
 
@@ -108,6 +133,16 @@ def handle (j : Json) : Except String Json := do
       out := out.push (jS s!"{d.c}e{d.e}")
       if !flipOkD d h m s then bad := bad + 1
     return Json.mkObj [("targets", Json.arr out), ("bad", jN bad)]
+  if op == "cost_p" then
+    let arg ← optTariff j "arg"
+    -- sim.signals: "nodict" = None, null = a dict without "tariff", a file name = {"tariff": that tariff}
+    let sigName ← getOpt j "sig" (fun v => v.getStr?)
+    let signals : Option (Option (List (Schedule Float))) ←
+      if sigName == some "nodict" then pure none else do pure (some (← optTariff j "sig"))
+    let st ← getInt j "sim_start_us"; let p ← getPeriod j
+    let pf ← getF j "period_f"; let agg ← getFs j "agg"
+    return Json.mkObj [("energy_cost", jResC (energyCostWith arg signals st p pf agg)),
+      ("demand_charge", jResC (demandChargeWith arg signals st agg))]
   let name ← getStr j "file"
   let loaded ← loadFile name
   if op == "load" then
@@ -125,6 +160,16 @@ def handle (j : Json) : Except String Json := do
   else if op == "tariffs_us" then
     let r := getTariffsUs l (← getInt j "start_us") (← getNat j "n") (← getInt j "step_us")
     pure (Json.mkObj [("prices", jResL r)])
+  else if op == "tariffs_p" then
+    let p ← getPeriod j
+    let r := getTariffsP l (← getInt j "start_us") (← getNat j "n") p
+    pure (Json.mkObj [("prices", jResL r), ("step_us", jI (tdUs p))])
+  else if op == "iface_p" then
+    let st ← getInt j "sim_start_us"; let p ← getPeriod j
+    let it ← getNat j "iteration"
+    let start ← getOpt j "start" (fun v => v.getInt?)
+    pure (Json.mkObj [("prices", jResL (interfacePricesP l st p it start (← getNat j "n"))),
+      ("demand", jRes (interfaceDemandP l st p it start)), ("step_us", jI (tdUs p))])
   else if op == "iface" then
     let st ← getInt j "sim_start"; let p ← getNat j "period"
     let it ← getNat j "iteration"
